@@ -709,7 +709,7 @@ func runC13(c *Ctx) {
 }
 
 func (c *Ctx) ruleDistributedBinders(rule string) {
-	c.Rep.rule(rule, "E6 siblings", "each distributed binder: exactly one Register(adapter), one start, one Subscribe(handler), in that effective order", 2)
+	c.Rep.rule(rule, "E6 siblings", "each distributed binder: exactly one Register(adapter) and one Subscribe(handler), both before exactly one start", 2)
 	// a distributed binder: a method taking an adapter that can be subscribed to
 	var binders []*Func
 	for _, f := range c.P.pkgFuncs(modPath) {
@@ -739,9 +739,9 @@ func (c *Ctx) ruleDistributedBinders(rule string) {
 			if sg.Kind != "path" {
 				continue
 			}
-			good := sg.count("register") == 1 && sg.count("start") == 1 && sg.count("subscribe") == 1 && sg.index("register") < sg.index("start") && sg.index("start") < sg.index("subscribe")
-			c.Rep.check(good, rule, f.Short(), "bind wiring", sg.End, "Register → start → Subscribe, once each",
-				"a distributed binder must register the adapter, start the worker and subscribe its handler, each exactly once and in that order (start's initial notify must already see the adapter; announcements must not arrive before the worker runs): ["+strings.Join(sg.Syms, " ")+"]")
+			good := sg.count("register") == 1 && sg.count("start") == 1 && sg.count("subscribe") == 1 && sg.index("register") < sg.index("start") && sg.index("subscribe") < sg.index("start")
+			c.Rep.check(good, rule, f.Short(), "bind wiring", sg.End, "Register and Subscribe, then start, once each",
+				"a distributed binder must register the adapter and subscribe its handler, each exactly once, and only then start the worker: the wake-up start() raises is the only one that covers items already on the adapter and items announced while the bind is in progress — an adapter registered after it is not seen, an item announced between the start-up pass and a later Subscribe is announced to nobody: ["+strings.Join(sg.Syms, " ")+"]")
 		}
 		// arguments: Register(adapter param), Subscribe(handler of this worker)
 		info := f.Info()
